@@ -128,11 +128,52 @@ def run(s):
                 docs = build_docs(rng, n_c, n_d, n_o, n_r, two, dup_ids=(idx % 3 == 0))
                 if order:
                     docs = list(reversed(docs))
-                hows = ('strings',) if q else ('strings', 'files', 's3')
+                hows = (('strings', 'files', 's3')[idx % 3],) if q else ('strings', 'files', 's3')
                 for how in hows:
                     if how == 's3' and not docs:
                         pass
                     judge(s, docs, allow, how, cfg, (n_c, n_d, n_o, n_r, two), tmpdir)
+        # the same verdicts through `mosromgr merge`: status 2 exactly for the rejected collections
+        import contextlib, io
+        import mosromgr.cli as cli
+        n_cli = 0
+        for n_c, n_d, n_o, two, inc, ns in itertools.product(range(3), range(3), range(2), (False, True),
+                                                             (False, True), (False, True)):
+            n_cli += 1
+            if not s.mine(n_cli):
+                continue
+            rng = s.rng('cli', n_c, n_d, n_o, two)
+            docs = build_docs(rng, n_c, n_d, n_o, 0, two)
+            if not docs:
+                continue
+            paths = []
+            for k, d in enumerate(docs):
+                p_ = os.path.join(tmpdir, 'cli%d-%d.mos.xml' % (n_cli, k))
+                open(p_, 'w', encoding='utf-8').write(d)
+                paths.append(p_)
+            mc, err = K.make_collection(s, docs, 'strings', inc, tmpdir)
+            argv = ['merge', '-f'] + paths + (['-i'] if inc else []) + (['-n'] if ns else [])
+            o, e = io.StringIO(), io.StringIO()
+            with contextlib.redirect_stdout(o), contextlib.redirect_stderr(e):
+                try:
+                    rc = cli.main(argv)
+                except SystemExit as ex:
+                    rc = ex.code
+                except Exception as ex:
+                    rc = 'EXC:' + type(ex).__name__
+            from .. import events as EV
+            EV.drain()
+            s.evaluations += 1
+            s.note_sig((cfg, 'cli', (n_c, n_d, n_o, two), inc, ns, mc is not None))
+            s.hist['validation_via_cli'] += 1
+            if mc is None and rc != 2:
+                s.custom_violation('cli-accepts-a-collection-the-library-rejects',
+                                   {'counts': (n_c, n_d, n_o, two), 'incomplete': inc, 'non_strict': ns, 'rc': rc,
+                                    'library': type(err).__name__},
+                                   {'type': 'validate', 'docs': docs, 'allow_incomplete': inc, 'how': 'strings', 'argv': argv},
+                                   status='cli')
+            for p_ in paths:
+                os.unlink(p_)
         if not q:
             for i in range(10000):
                 if not s.mine(i):
